@@ -210,8 +210,14 @@ def cpp_dispatch_entry(info):
             elty = "Goldilocks::Element" if "Element" in q else "uint64_t"
             lines.append("    Buf %s = A.r();" % v)
             dq = pd["type"].get("desugaredQualType", q)
-            if "Goldilocks3::Element" in q or "(&)[3]" in dq or "(*)[3]" in dq:
-                if q.strip().endswith("&") or "(&)[3]" in dq:
+            mref = re.match(r"^(.*?)\s*\(&\)\[(\d+)\]$", dq.strip())
+            mptr = re.match(r"^(.*?)\s*\(\*\)\[(\d+)\]$", dq.strip())
+            if mref:
+                call_args.append("*reinterpret_cast<%s (*)[%s]>(%s.p)" % (mref.group(1), mref.group(2), v))
+            elif mptr:
+                call_args.append("reinterpret_cast<%s (*)[%s]>(%s.p)" % (mptr.group(1), mptr.group(2), v))
+            elif "Goldilocks3::Element" in q:
+                if q.strip().endswith("&"):
                     call_args.append("*(Goldilocks3::Element *)%s.p" % v)
                 else:
                     call_args.append("(Goldilocks3::Element *)%s.p" % v)
@@ -250,6 +256,11 @@ def cpp_dispatch_entry(info):
 def main():
     t0 = time.time()
     status = {"modules": {}, "operators_missing": []}
+    try:
+        import tr_ptx
+        tr_ptx.generate(status)   # Gen/Ptx.lean, Gen/PtxTables.lean (C20); independent of the clang AST
+    except Exception as e:
+        status["modules"]["Ptx"] = {"ok": False, "errors": ["tr_ptx: %s" % e], "functions": 0, "names": []}
     try:
         ast = Ast()
     except Exception as e:
@@ -294,6 +305,17 @@ def main():
         # earlier modules' functions are reused, not re-emitted
         for dep in m.get("uses", []):
             pass
+        for cname in m.get("consts", []):
+            vds = [v for v in ast.var_defs.values() if v.get("name") == cname and v.get("_namespace") == m.get("consts_namespace")]
+            if not vds:
+                st["ok"] = False
+                st["errors"].append("constant %s not found" % cname)
+            for vd in vds:
+                try:
+                    tr.need_const(vd)
+                except Unsupported as e:
+                    st["ok"] = False
+                    st["errors"].append("constant %s: %s" % (cname, e))
         for cls, fname in m["roots"](ast) if callable(m["roots"]) else m["roots"]:
             defs = ast.find_methods(cls, fname)
             if not defs:
